@@ -3,6 +3,8 @@ package main
 import (
 	"fmt"
 	"os"
+	"runtime/pprof"
+	"syscall"
 )
 
 func main() {
@@ -14,6 +16,20 @@ func main() {
 	if !ok {
 		fmt.Fprintln(os.Stderr, "unknown component", os.Args[1])
 		os.Exit(2)
+	}
+	// the components under test keep log files open; allow many instances
+	var rl syscall.Rlimit
+	if syscall.Getrlimit(syscall.RLIMIT_NOFILE, &rl) == nil {
+		rl.Cur = rl.Max
+		syscall.Setrlimit(syscall.RLIMIT_NOFILE, &rl)
+	}
+	if pf := os.Getenv("STSH_CPUPROFILE"); pf != "" {
+		f, _ := os.Create(pf)
+		pprof.StartCPUProfile(f)
+		rc := cmd(os.Args[2:])
+		pprof.StopCPUProfile()
+		f.Close()
+		os.Exit(rc)
 	}
 	os.Exit(cmd(os.Args[2:]))
 }
